@@ -1508,9 +1508,22 @@ fn spawn_child(input: &[u8], timeout: Duration) -> gv::child::Exit {
     let t_in = std::thread::spawn(move || {
         let _ = si.write_all(&inp);
     });
+    // `timeout` bounds the time *without progress* (the child prints a line per case), so a
+    // loaded machine does not turn a long batch into a false "hang"
+    let progress = std::sync::Arc::new(std::sync::Mutex::new(std::time::Instant::now()));
+    let pr2 = progress.clone();
     let t_out = std::thread::spawn(move || {
         let mut s = Vec::new();
-        let _ = so.read_to_end(&mut s);
+        let mut buf = [0u8; 65536];
+        loop {
+            match so.read(&mut buf) {
+                Ok(0) | Err(_) => break,
+                Ok(n) => {
+                    s.extend_from_slice(&buf[..n]);
+                    *pr2.lock().unwrap() = std::time::Instant::now();
+                }
+            }
+        }
         String::from_utf8_lossy(&s).into_owned()
     });
     let t_err = std::thread::spawn(move || {
@@ -1519,7 +1532,6 @@ fn spawn_child(input: &[u8], timeout: Duration) -> gv::child::Exit {
         let s = String::from_utf8_lossy(&s).into_owned();
         s.chars().take(400).collect::<String>()
     });
-    let start = std::time::Instant::now();
     loop {
         match ch.try_wait().unwrap() {
             Some(st) => {
@@ -1537,7 +1549,8 @@ fn spawn_child(input: &[u8], timeout: Duration) -> gv::child::Exit {
                 };
             }
             None => {
-                if start.elapsed() > timeout {
+                let stalled = progress.lock().unwrap().elapsed();
+                if stalled > timeout {
                     let _ = ch.kill();
                     let _ = ch.wait();
                     let _ = t_in.join();
@@ -1564,8 +1577,7 @@ fn run_batch(cases: &[(String, Vec<u8>)]) -> Vec<LoadOutcome> {
             input.push_str(&hex(b));
             input.push('\n');
         }
-        let timeout = Duration::from_secs(20 + (cases.len() - start) as u64 / 40);
-        let ex = spawn_child(input.as_bytes(), timeout);
+        let ex = spawn_child(input.as_bytes(), Duration::from_secs(45));
         let (stdout, how) = match &ex {
             gv::child::Exit::Ok(o) => (o.clone(), "ok".to_string()),
             gv::child::Exit::Code(c, o, e) => (o.clone(), format!("exit:{} {}", c, tail(e))),
@@ -1600,7 +1612,31 @@ fn run_batch(cases: &[(String, Vec<u8>)]) -> Vec<LoadOutcome> {
         // the child died / hung while running case `last_started` (or before starting any)
         let bad = last_started.unwrap_or(0);
         if res[start + bad].is_none() {
-            res[start + bad] = Some(LoadOutcome::Crash(how.clone()));
+            // confirm in a child of its own (new VM, nothing else running in the process)
+            let (f, b) = &cases[start + bad];
+            let one = format!("{} {}\n", f, hex(b));
+            let ex1 = spawn_child(one.as_bytes(), Duration::from_secs(45));
+            let (o1, how1) = match &ex1 {
+                gv::child::Exit::Ok(o) => (o.clone(), "ok".to_string()),
+                gv::child::Exit::Code(c, o, e) => (o.clone(), format!("exit:{} {}", c, tail(e))),
+                gv::child::Exit::Signal(sg, o, e) => (o.clone(), format!("signal:{} {}", sg, tail(e))),
+                gv::child::Exit::Timeout(o) => (o.clone(), "timeout".to_string()),
+            };
+            let mut r1 = None;
+            for l in o1.lines() {
+                let mut it = l.splitn(4, ' ');
+                if it.next() == Some("R") {
+                    let _ = it.next();
+                    let kind = it.next().unwrap_or("");
+                    let rest = it.next().unwrap_or("").to_string();
+                    r1 = Some(match kind {
+                        "ok" => LoadOutcome::Ok(rest),
+                        "err" => LoadOutcome::Err(rest),
+                        _ => LoadOutcome::Panic(rest),
+                    });
+                }
+            }
+            res[start + bad] = Some(r1.unwrap_or(LoadOutcome::Crash(how1)));
         }
         start = start + bad + 1;
     }
@@ -1770,7 +1806,11 @@ fn check_program(
                 replay(json!({"source_error": d, "bytecode": v, "where": which})),
             ),
             (Err(e), _) => out.oracle_fail(
-                &format!("load-fails:{}", if e.starts_with("PANIC") { crash_class(&e) } else { err_class(&e) }),
+                &if e.contains("Global is missing from environment") {
+                    "undefined-global:panic".to_string()
+                } else {
+                    format!("load-fails:{}", if e.starts_with("PANIC") { crash_class(&e) } else { err_class(&e) })
+                },
                 &format!("bytecode of a valid program fails to load/run in {}: {}", which, e),
                 replay(json!({"where": which})),
             ),
@@ -1897,8 +1937,15 @@ fn judge_damaged(
                 if operand {
                     out.count(&format!("B:unvalidated-operand:panic:{}", path));
                 }
+                let ice = m.contains("Global is missing from environment");
+                if ice {
+                    out.count(&format!("B:undefined-global:panic:{}", kind));
+                }
                 out.oracle_fail(
-                    &if operand {
+                    &if ice {
+                        // whatever damage made the bytecode name an undefined global
+                        "undefined-global:panic".to_string()
+                    } else if operand {
                         "unvalidated-operand:panic".to_string()
                     } else {
                         format!("panic:{}:{}", kind, if *kind == "truncate" || *kind == "missing-module" || *kind == "rename-global" { crash_class(&m) } else { path.clone() })
@@ -1920,7 +1967,9 @@ fn judge_damaged(
                 }
                 out.oracle_fail(
                     &if operand {
-                        format!("unvalidated-operand:{}", sig)
+                        // any death of the process (abort on a failed huge allocation, stack
+                        // overflow, kill): one class, the signal is in `what` and in the stats
+                        "unvalidated-operand:process-killed".to_string()
                     } else {
                         format!("crash:{}:{}:{}", kind, sig, if *kind == "truncate" || *kind == "missing-module" || *kind == "rename-global" { String::new() } else { path.clone() })
                     },
